@@ -449,7 +449,7 @@ enum Item {
 
 pub fn run(ctx: &Ctx) -> Report {
     let mut work = vec![];
-    for i in 0..ctx.pick(6, 32, 256) {
+    for i in 0..ctx.pick(6, 64, 256) {
         work.push(Item::Seq(i));
     }
     for i in 0..ctx.pick(10, 16, 64) {
@@ -469,7 +469,7 @@ pub fn run(ctx: &Ctx) -> Report {
             }
         }
         Item::Threads(i) => {
-            for rpt in 0..ctx.pick(2, 12, 60) {
+            for rpt in 0..ctx.pick(2, 20, 60) {
                 let nt = [2usize, 4, 8][(i as usize + rpt) % 3];
                 check_threads(nt, ctx.pick(6, 60, 200), ctx.seed ^ (i * 1000 + rpt as u64), rep);
             }
